@@ -182,6 +182,16 @@ static void check_rule(Rng& rng, unsigned n, double a, double b, bool reversed)
 			for(unsigned i = 0; i < n; i++)
 				S += std::fabs(rw[i][1] * fv[i]);
 			judge("three-overloads-agree", std::max(std::fabs(v1 - v2), std::fabs(v2 - v3)), 4 * n * EPS * S + 1e-300, [&] { return pj().d("(f,a,b,n)", v1).d("(f,rule)", v2).d("(values,rule)", v3); });
+			// the same with an integrand that no other rule integrates to the same value (neither a polynomial nor odd about the midpoint): an overload that
+			// silently uses another order or other nodes than the rule of order n differs at truncation level (seeded change C12-m4: order 1 replaced by 2)
+			std::function<double(double)> g = [&](double x) { return std::exp(0.7 * (x - m) / h) + f(x); };
+			double w1 = Integrate_Gauss_Legendre(g, a1, b1, n), w2 = Integrate_Gauss_Legendre(g, rw);
+			std::vector<double> gv(n);
+			double Sg = 0;
+			for(unsigned i = 0; i < n; i++)
+				gv[i] = g(rw[i][0]), Sg += std::fabs(rw[i][1] * gv[i]);
+			double w3 = Integrate_Gauss_Legendre(gv, rw);
+			judge("three-overloads-agree", std::max(std::fabs(w1 - w2), std::fabs(w2 - w3)), 4 * n * EPS * Sg + 1e-300, [&] { return pj().d("(g,a,b,n)", w1).d("(g,rule)", w2).d("(values,rule)", w3); });
 		}
 		// and the value is the exact integral of the polynomial part plus that of sin(3u) (odd: 0), when the degree fits
 		if(c.size() <= 2 * n)
